@@ -237,6 +237,8 @@ func (x *Exec) globalVar(st *State, o *types.Var) *Value {
 	key := o.Name()
 	if o.Pkg() != nil && o.Pkg() != x.eng.pkg.Types {
 		key = o.Pkg().Name() + "." + o.Name()
+	} else {
+		x.guardGlobal(st, key, nil, false)
 	}
 	if v, ok := st.globals[key]; ok {
 		return v
@@ -348,6 +350,10 @@ func (x *Exec) evalAddrOf(st *State, e *ast.UnaryExpr) *Value {
 		if obj != nil {
 			if ref, ok := st.addr[obj]; ok {
 				return scalarV(t, ref)
+			}
+			if gv, ok := obj.(*types.Var); ok && gv.Parent() == x.eng.pkg.Types.Scope() {
+				// address of a package-level variable: no read of the variable itself
+				return scalarV(t, x.b.Var("globaladdr."+inner.Name, RefSort))
 			}
 			// not yet materialised (parameter or variable defined before the
 			// engine saw it): move it to the heap now
